@@ -45,6 +45,7 @@ Requests ==
        {[kind |-> "table", i |-> i] : i \in 1..Len(Tables)}
   \cup {[kind |-> "number", no |-> n, setting |-> s] : n \in 1..230, s \in Settings}
   \cup {[kind |-> "name", k |-> k, v |-> v] : k \in 1..Len(Dict), v \in Variants}
+  \cup {[kind |-> "nameset", k |-> k, v |-> 1, setting |-> s] : k \in 1..Len(Dict), s \in Settings}    \* a name AND an explicit cell_choice
 
 Init == /\ req \in Requests
         /\ text = <<>> /\ failed = {}
@@ -52,6 +53,7 @@ Init == /\ req \in Requests
                                        /\ choice = Tables[req.i].setting
              [] req.kind = "number" -> pc = "inst" /\ tbl = 0 /\ klass = req.no /\ choice = req.setting
              [] req.kind = "name"   -> pc = "norm" /\ tbl = 0 /\ klass = 0 /\ choice = "standard"
+             [] req.kind = "nameset" -> pc = "norm" /\ tbl = 0 /\ klass = 0 /\ choice = req.setting
 
 DoNormalise == /\ pc = "norm"
                /\ text' = Normalise(Spell(Dict[req.k].key, req.v))
@@ -100,7 +102,7 @@ NameAgrees == (pc = "resolved" /\ req.kind = "name") =>
                    \/ (Tables[tbl].setting = "standard" /\ HasTable(klass, "rhombohedral")
                        /\ text = nm \o <<104>>)      \* trailing "h"
 (* every dictionary key resolves, to the class the dictionary names *)
-KeysResolve == (req.kind = "name" /\ Terminal) => (pc = "resolved" /\ Tables[tbl].no = Dict[req.k].no)
+KeysResolve == (req.kind \in {"name", "nameset"} /\ Terminal) => (pc = "resolved" /\ Tables[tbl].no = Dict[req.k].no)
 (* rhombohedral tables are reached exactly by the r...r keys *)
 SuffixRule == (pc = "resolved" /\ req.kind = "name") =>
                  ((Tables[tbl].setting = "rhombohedral") <=> (text[1] = CodeR /\ text[Len(text)] = CodeR))
@@ -110,7 +112,7 @@ LawsHold == pc = "checked" => failed = {}
 Emit == Terminal =>
    PrintT("@@" \o ToJson(
      [req |-> req, pc |-> pc,
-      spelled |-> IF req.kind = "name" THEN Spell(Dict[req.k].key, req.v) ELSE <<>>,
+      spelled |-> IF req.kind \in {"name", "nameset"} THEN Spell(Dict[req.k].key, req.v) ELSE <<>>,
       text |-> text,
       no |-> IF tbl > 0 THEN Tables[tbl].no ELSE 0,
       setting |-> IF tbl > 0 THEN Tables[tbl].setting ELSE "",
